@@ -189,6 +189,7 @@ theorem step_effect (tbl : ResolveTable) (n : Node) (s s' : Data × Ctx) (hwf : 
         | merge _ => rw [hb] at hbeh; cases hbeh
         | collOf _ _ => rw [hb] at hbeh; cases hbeh
         | fail _ => rw [hb] at hbeh; cases hbeh
+        | echo => rw [hb] at hbeh; cases hbeh
     · intro k hk _
       -- operations never remove a key: either the key is declared (then it is (re)written or kept) or framed
       cases hd : n.declared.contains k with
@@ -282,6 +283,7 @@ theorem applyBeh_error_nonflow (b : Beh) (declared : List String) (v : Option Va
     · injection h with h; subst h; rfl
   | collOf tag n => simp [applyBeh] at h
   | fail cls => simp only [applyBeh] at h; injection h with h; subst h; rfl
+  | echo => simp [applyBeh] at h
 
 theorem mapBeh_error_nonflow (b : Beh) (declared : List String) (ps : List Val) :
     ∀ (xs : List Val) (e : Err), mapBeh b declared ps xs = .error e → isFlowC02 e = false
